@@ -18,7 +18,7 @@ import (
 func init() {
 	fw.Register(&fw.Prop{
 		ID: "C11",
-		Rule: "training-history monitor: models FC(D->O) -> {none, Relu, LeakyRelu(m), Sigmoid, Tanh, Softmax(1)} -> {MSE, BCE, CE} (rank-1 losses fed through Flatten(0); BCE/CE only behind Sigmoid/Softmax), D,O in 1..5, batch 1..6, learning rates {default, 1e-3, 0.05, 0.5, 0, -0.05}, random non-uniform initial W,B and data (fresh or reused batches), a 'dead Relu' variant whose gradients are exactly zero; ONE layer / activation / loss / optimizer object per history; 2..12 steps of Forward / Compute / BackPropagate / Update on every Weights() pointer / ResetGradContext(true); optional extra forward passes between steps. " +
+		Rule: "training-history monitor: models FC(D->O) -> {none, Relu, LeakyRelu(m), Sigmoid, Tanh, Softmax(1)} -> {MSE, BCE, CE} (rank-1 losses fed through Flatten(0); BCE/CE only behind Sigmoid/Softmax), D,O in 1..5, batch 1..6, learning rates {default, 1e-3, 0.05, 0.5, 0, -0.05}, random non-uniform initial W,B and data (fresh batches, reused values, or the very same data/label tensor objects fed at every step with a fresh context in between), a 'dead Relu' variant whose gradients are exactly zero; ONE layer / activation / loss / optimizer object per history; 2..12 steps of Forward / Compute / BackPropagate / Update on every Weights() pointer / ResetGradContext(true); optional extra forward passes between steps. " +
 			"Per step (no drift: the oracle starts from the weights observed before the step): loss value = reference loss; weights after the step = w - lr*dLoss/dw from the reference tape; shapes constant; after the reset every weight has a nil gradient, is tracked and not spent. Variant: the reset is omitted on one weight at a random step - the next Update of that weight must return an error and leave the pointer untouched. " +
 			"A step whose weights equal the tape run with BroadcastRule=Avg instead (and the model has batch > 1 or a Softmax wider than 1) is attributed to the recorded finding; models with batch 1 and no wide Softmax have no expansion and are decided exactly. " +
 			"Non-trivial: >= 2 steps completed; distinct = (D, O, batch, activation, loss, lr, variant, steps). Later additions: variants vary-batch (batch size changes between steps) and exact-fit (dyadic data, residuals exactly 0); Weights() pointers held from before the first step in half of the histories; data and label tensors tracked at random; every config struct overwritten right after construction; every third loss object is the zero value of its struct.",
@@ -207,6 +207,11 @@ func c11History(k *fw.K, quick bool) {
 	}
 	completed := 0
 	omitted := -1
+	// "reuse-batch": in half of those histories the very same data / label tensor OBJECTS are fed at every step
+	// (full-batch training), given a fresh context between steps exactly like the weights
+	var xObj, tObj tensor.Tensor
+	sameObjects := m.Variant == "reuse-batch" && r.Intn(2) == 0
+	objTrack := r.Intn(4)
 	for step := 0; step < m.Steps; step++ {
 		if m.Variant != "reuse-batch" && step > 0 {
 			x, t = newBatch()
@@ -259,10 +264,21 @@ func c11History(k *fw.K, quick bool) {
 		// ---- the real step ----
 		var l tensor.Tensor
 		trackData := r.Intn(4) // the data and label tensors of a step may themselves be tracked
+		xIn, tIn := rt.MustLeaf(x, trackData&1 != 0), rt.MustLeaf(t, trackData&2 != 0)
+		if sameObjects {
+			if xObj == nil {
+				xObj, tObj = rt.MustLeaf(x, objTrack&1 != 0), rt.MustLeaf(t, objTrack&2 != 0)
+			} else {
+				xObj.ResetGradContext(objTrack&1 != 0)
+				tObj.ResetGradContext(objTrack&2 != 0)
+			}
+			xIn, tIn = xObj, tObj
+			k.Count("steps_fed_the_same_data_objects", 1)
+		}
 		stage := "Forward"
 		if pn := call(func() {
 			var y tensor.Tensor
-			y, err = fc.Forward(rt.MustLeaf(x, trackData&1 != 0))
+			y, err = fc.Forward(xIn)
 			if err != nil {
 				return
 			}
@@ -279,7 +295,7 @@ func c11History(k *fw.K, quick bool) {
 				}
 			}
 			stage = "loss"
-			if l, err = loss.Compute(y, rt.MustLeaf(t, trackData&2 != 0)); err != nil {
+			if l, err = loss.Compute(y, tIn); err != nil {
 				return
 			}
 			stage = "BackPropagate"
